@@ -42,6 +42,18 @@ func newParser(src string, m Mode) *parser.Parser {
 		sib.Build("sibling(1)\n{ \"open").ParseProgram()
 	}
 	pb := parser.NewBuilder(lb)
+	if bits&4 == 4 {
+		// a builder that was configured the other way round first (and, for half of
+		// these, used that way) and is then set to the wanted modes: the last call
+		// of each option decides
+		pb.WithTolerantMode(!m.Tolerant)
+		pb.WithSmartSemicolon(!m.Smart)
+		if bits&8 == 8 {
+			pb.Build("warm(1)\n(2)\n[3]\nlet a = 1 let b").ParseProgram()
+		}
+		pb.WithTolerantMode(m.Tolerant)
+		pb.WithSmartSemicolon(m.Smart)
+	}
 	if bits&2 == 2 {
 		pb = pb.WithTolerantMode(m.Tolerant).WithSmartSemicolon(m.Smart)
 	} else {
